@@ -480,8 +480,11 @@ Definition summary_eqb_mod_status (a b : summary) : bool :=
   N.eqb (su_expiry a) (su_expiry b) && set_eqb (su_pending a) (su_pending b) && set_eqb (su_invalid a) (su_invalid b).
 
 Definition towers_eqb_mod_status (m1 m2 : amap summary) : bool :=
-  forallb (fun kv => match aget m2 (fst kv) with Some s => summary_eqb_mod_status (snd kv) s | None => false end) m1 &&
-  forallb (fun kv => amem m1 (fst kv)) m2.
+  forallb (fun k => match aget m1 k, aget m2 k with
+                    | Some a, Some b => summary_eqb_mod_status a b
+                    | None, None => true
+                    | _, _ => false
+                    end) (map fst m1 ++ map fst m2).
 
 (* memory = disk: the summaries held in memory are the ones load_towers computes from the tables *)
 Definition mem_eq_diskb (c : client) : bool := towers_eqb_mod_status (c_towers c) (load_towers (c_db c)).
